@@ -317,6 +317,18 @@ func (mq *memtableQueue) Rotate() {
 	mq.rotateNoLock()
 }
 
+// rotateIfNotEmpty rotates only if the mutable memtable holds documents.
+// Used before a forced flush so that the active memtable gets flushed too,
+// without creating empty segments.
+func (mq *memtableQueue) rotateIfNotEmpty() {
+	mq.mu.Lock()
+	defer mq.mu.Unlock()
+
+	if mq.mutable.count() > 0 {
+		mq.rotateNoLock()
+	}
+}
+
 // rotateNoLock performs rotation without acquiring the lock.
 // Must be called with mq.mu held.
 func (mq *memtableQueue) rotateNoLock() {
